@@ -151,7 +151,9 @@ def run(ctx):
         known_met.setdefault(cls[0], []).append(dict(scheduler="os", workload="(free running)", detail=cls[1]))
         runs.append(d)
     elif rc != 0:
-        if "panicked" in lg or rc < 0:
+        if "panicked" in lg or rc < 0 or rc in (101, 134):     # 101 = a Rust panic reached main (the free-running harness keeps
+                                                               # the panic hook quiet), 134 = abort
+
             ctx.violation(dict(kind="the protocol workload on OS threads died with a panic (an assertion inside salsa fired / a "
                                     "waiter was not woken): concrete failing run", harness_seed=ctx.seed, exit_status=rc,
                                output_tail=lg[-2500:]))
